@@ -2,6 +2,8 @@
 package verif_c07_test
 
 import (
+	"runtime/pprof"
+	"encoding/json"
 	"bytes"
 	"context"
 	"fmt"
@@ -790,7 +792,38 @@ func sortedWriterIDs(m map[int]*writer.Writer) []int {
 
 var caseCounter int
 
+// execute runs one case. A case that does not finish within caseTimeout (expected: tens of
+// milliseconds) is run a second time on a fresh cluster; only when the second run does not
+// finish either is it reported, as a stall of the operation the goroutine dump shows (declared
+// exception to "a time budget is never a violation", as for C09/C20: a write, commit or close
+// that never returns stores nothing, which is not what a single-node store does).
 func execute(sc Script, rep *kit.Report) error {
+	err, timedOut := executeOnce(sc, rep)
+	if !timedOut {
+		return err
+	}
+	rep2 := &kit.Report{}
+	if _, again := executeOnce(sc, rep2); !again {
+		rep.Discard("case-timeout-not-reproduced")
+		return nil
+	}
+	var sb strings.Builder
+	_ = pprof.Lookup("goroutine").WriteTo(&sb, 1)
+	dump := sb.String()
+	where := "unknown"
+	for _, fn := range []string{"writer.(*Writer).Write", "writer.(*Writer).Commit", "writer.(*Writer).Close", "writer.(*Writer).SetAuthority", "iterator.(*Iterator)", "framer.(*Service).OpenWriter", "framer.(*Service).OpenIterator"} {
+		if strings.Contains(dump, "framer/"+fn) {
+			where = fn
+			break
+		}
+	}
+	if len(dump) > 12000 {
+		dump = dump[:12000]
+	}
+	return kit.Fail("stall:"+where, "the case did not finish within %s twice in a row on fresh clusters (expected: well under a second); blocked in %s; goroutines:\n%s", caseTimeout, where, dump)
+}
+
+func executeOnce(sc Script, rep *kit.Report) (error, bool) {
 	caseCounter++
 	if os.Getenv("VERIF_C07_LEAKS") != "" && caseCounter%250 == 0 {
 		runtime.GC()
@@ -799,7 +832,7 @@ func execute(sc Script, rep *kit.Report) error {
 		fmt.Printf("LEAKCHECK case=%d goroutines=%d heap=%dMiB\n", caseCounter, runtime.NumGoroutine(), ms.HeapAlloc>>20)
 	}
 	if sc.N < 1 || sc.N > 3 {
-		return kit.Fail("script-bug", "n=%d", sc.N)
+		return kit.Fail("script-bug", "n=%d", sc.N), false
 	}
 	type outcome struct {
 		err error
@@ -837,14 +870,17 @@ func execute(sc Script, rep *kit.Report) error {
 	case out = <-done:
 	case <-time.After(caseTimeout):
 		// inconclusive: something blocked (the goroutine and its cluster are abandoned)
-		rep.Discard("case-timeout")
-		return nil
+		if os.Getenv("VERIF_C07_HANGS") != "" {
+			b, _ := json.Marshal(sc)
+			fmt.Printf("HANG-SCRIPT %s\n", b)
+		}
+		return nil, true
 	}
 	if out.pan != nil {
 		panic(out.pan)
 	}
 	if out.err != nil {
-		return out.err
+		return out.err, false
 	}
 	rep.Class(fmt.Sprintf("n=%d", sc.N))
 	if e.nontrivial {
@@ -853,5 +889,5 @@ func execute(sc Script, rep *kit.Report) error {
 	if os.Getenv("VERIF_DEBUG_DISCARD") != "" && rep.Has("__discarded") {
 		fmt.Printf("DISCARDED: %+v\n", sc)
 	}
-	return nil
+	return nil, false
 }
